@@ -1057,3 +1057,58 @@ def gen_diamond(seed: int, tier: str = "quick") -> Dict[str, Any]:
           "config": cfg, "feats": {"diamond": True}}
     repair_cycles(sc, rng)
     return sc
+
+
+# ---------------------------------------------------------------------------------
+# two trigger paths into a simulator of an *inner* group (three time tiers): one direct from the
+# outer group, one that leaves all groups and re-enters, ending with a weak hop inside the inner
+# group - the two delays agree on every tier up to the larger cutoff and differ only behind it
+def gen_deeptail(seed: int, tier: str = "quick") -> Dict[str, Any]:
+    rng = random.Random(sub_seed(seed, "deeptail"))
+    groups = [None, 0, 1]            # G = 1, H = 2 inside G
+    if rng.random() < 0.2:
+        groups.append(0)             # a sibling of G for the detour
+
+    def mk(sid, typ, group, **beh):
+        if typ == "time-based":
+            b = {"bseed": rng.randrange(1 << 30), "step_sizes": [rng.choice([1, 1, 2])]}
+        else:
+            b = {"bseed": rng.randrange(1 << 30), "p_self": 0.0, "self_d": 1, "p_out": 1.0, "loop_len": 1}
+        b.update(beh)
+        s = {"sid": sid, "type": typ, "group": group, "n_ent": 2, "meta_style": 0,
+             "transport": pick_weighted(rng, TRANSPORT_MIXES["mixed"]), "beh": b}
+        if typ == "event-based":
+            s["init_event"] = None
+        return s
+    at = rng.choice(["time-based", "time-based", "hybrid", "event-based"])
+    A = mk("A", at, 1) if at == "time-based" else mk("A", at, 1, p_self=1.0, self_d=rng.choice([1, 2]))
+    if at == "event-based":
+        A["init_event"] = 0
+    ao = "p_out" if at == "time-based" else "e_out"
+    D = mk("D", rng.choice(["event-based", "hybrid"]), 2, p_out=rng.choice([0.0, 0.5, 1.0]))
+    E = mk("E", rng.choice(["event-based", "hybrid"]), 2)
+    C = mk("C", rng.choice(["event-based", "hybrid"]), rng.choice([0, 0, 0, 1, len(groups) - 1]))
+    sims = [A, D, E, C]
+    kd = rng.choice([0, 0, 0, 1])
+    conns = [
+        {"src": 0, "se": 0, "dst": 1, "de": 0, "pairs": [[ao, "t_in"]], "shift": kd, "weak": False},
+        {"src": 0, "se": 1, "dst": 3, "de": 0, "pairs": [[ao, "t_in"]], "shift": 0, "weak": False},
+        {"src": 3, "se": 0, "dst": 2, "de": 0, "pairs": [["e_out", "t_in"]], "shift": kd if rng.random() < 0.7 else 0,
+         "weak": False},
+        {"src": 2, "se": 0, "dst": 1, "de": 1, "pairs": [["e_out", "t_in"]], "shift": 0, "weak": rng.random() < 0.85},
+    ]
+    if rng.random() < 0.3:
+        # a consumer of D (inside H, inside G or outside)
+        F = mk("F", rng.choice(["time-based", "event-based"]), rng.choice([0, 1, 2]))
+        sims.append(F)
+        conns.append({"src": 1, "se": 0, "dst": 4, "de": 0,
+                      "pairs": [["e_out", "m_in" if F["type"] == "time-based" else "t_in"]], "shift": 0, "weak": False})
+    cfg = {"cache": rng.random() < 0.5, "lazy": rng.random() < 0.6, "debug": False, "mli": 8,
+           "start_seed": rng.choice([None, rng.randrange(1 << 30)]),
+           "connect_seed": rng.choice([None, rng.randrange(1 << 30)]),
+           "order_seed": rng.choice([None, rng.randrange(1 << 30)]),
+           "iteration_cost": rng.choice([0.0, 1e-5])}
+    sc = {"groups": groups, "sims": sims, "conns": conns, "until": rng.choice([2, 3, 4, 5]),
+          "config": cfg, "feats": {"twopath": True, "deeptail": True}}
+    repair_cycles(sc, rng)
+    return sc
